@@ -205,11 +205,29 @@ func copyToSelectedData[T any](remoteWrite bool, existingData []T, filterData *F
 				continue
 			}
 
-			CopyNonNilDataFromItemToItem(newData, &existingData[i])
+			CopyNonNilDataFromItemToItem(withoutWriteCheck(remoteWrite, newData), &existingData[i])
 			break
 		}
 	}
 	return existingData, success
+}
+
+// a remote write must not alter the "writecheck" tagged field of an item:
+// returns a copy of the item without that field for remote writes
+func withoutWriteCheck[T any](remoteWrite bool, item *T) *T {
+	if !remoteWrite || item == nil {
+		return item
+	}
+
+	result := *item
+	v := reflect.ValueOf(&result).Elem()
+	for _, fieldName := range fieldNamesWithEEBusTag(EEBusTagWriteCheck, result) {
+		if f := v.FieldByName(fieldName); f.IsValid() && f.CanSet() {
+			f.Set(reflect.Zero(f.Type()))
+		}
+	}
+
+	return &result
 }
 
 // Copy data to all elements
@@ -231,7 +249,7 @@ func copyToAllData[T any](remoteWrite bool, existingData []T, newData *T) ([]T, 
 			continue
 		}
 
-		CopyNonNilDataFromItemToItem(newData, &existingData[i])
+		CopyNonNilDataFromItemToItem(withoutWriteCheck(remoteWrite, newData), &existingData[i])
 	}
 
 	return existingData, success
